@@ -498,6 +498,8 @@ fn run_direct(ops: &[DOp], emulate: bool, stats: &mut Stats) -> Result<u64, Viol
                 let name = ELEMS[op.a as usize % ELEMS.len()];
                 let mut flags = ElementFlags::default();
                 flags.template = name == "template";
+                // one element in eight is created as a MathML annotation-xml integration point
+                flags.mathml_annotation_xml_integration_point = op.b & 0x3800 == 0x3800;
                 let h = sink.create_element(qn(name), mk_attrs(op.b), flags);
                 hs.push(h);
                 stats.inc("direct_create_element");
@@ -973,7 +975,7 @@ impl World for RcDomWorld {
         emit(&m)
     }
     fn rule(&self) -> String {
-        "case = (a) recorded history: every TreeSink call of a real HTML or XML parse of a generated input (customizable-select skeletons spliced in) forwarded to both RcDom and the abstract DOM model by a tee sink, or (b) direct history: 4..90 seeded contract-valid TreeSink calls (create_*, append node/text, append_before_sibling with text merge / node from the same or another parent, append_based_on_parent_node, remove_from_parent, reparent_children, add_attrs_if_missing with overlapping names, template contents, option mirroring); after every mutating call: structural equality, parent links of every node ever created, serializer callbacks vs. model preorder walk; non-trivial = input longer than 3 chars / more than 3 operations; distinct = distinct hash of the case".into()
+        "case = (a) recorded history: every TreeSink call of a real HTML or XML parse of a generated input (customizable-select skeletons and generated select scenarios spliced in, one in 120 from the scale family) forwarded to both RcDom and the abstract DOM model by a tee sink, or (b) direct history: 4..90 seeded contract-valid TreeSink calls (create_*, append node/text, append_before_sibling with text merge / node from the same or another parent, append_based_on_parent_node, remove_from_parent, reparent_children, add_attrs_if_missing with overlapping names, template contents, option mirroring; wide parents of 15..70 children with look-ups of early / middle / late children; churn around the option mirror); every RcDom node must be reached exactly once; after every mutating call: structural equality, parent links of every node ever created, serializer callbacks vs. model preorder walk; non-trivial = input longer than 3 chars / more than 3 operations; distinct = distinct hash of the case".into()
     }
     fn components(&self) -> Value {
         json!({"real": ["markup5ever_rcdom::RcDom (all TreeSink methods)", "markup5ever_rcdom::SerializableHandle::serialize", "html5ever / xml5ever parsers producing the recorded histories"],
